@@ -293,6 +293,18 @@ fn corner_families(mode: u8) -> Vec<(String, MapSpec)> {
     });
     add("fast-bpm", (0..12).map(|i| circle(50 + 30 * i, 200, 1000.0 + 20.0 * f64::from(i))).collect(), &|m| m.timing[0].beat_len = 6.0);
     add("slow-bpm", (0..6).map(|i| slider(50 + 30 * i, 200, 1000.0 + 9000.0 * f64::from(i), 140.0, 1)).collect(), &|m| m.timing[0].beat_len = 60_000.0);
+    let mixed = |dt: f64| -> Vec<ObjSpec> { (0..8).map(|i| if i % 3 == 1 { slider(50 + 50 * i, 100, 1000.0 + dt * f64::from(i), 100.0, 1 + (i as u32 % 2)) } else { circle(50 + 50 * i, 250, 1000.0 + dt * f64::from(i)) }).collect() };
+    add("beat-length-tiny", mixed(200.0), &|m| m.timing[0].beat_len = 0.0001);
+    add("beat-length-huge", mixed(200.0), &|m| m.timing[0].beat_len = 1.0e9);
+    add("sv-extremes", mixed(300.0), &|m| {
+        m.timing.push(TimingSpec { time: 1200.0, beat_len: -0.001, uninherited: false, kiai: false });
+        m.timing.push(TimingSpec { time: 2000.0, beat_len: -1.0e9, uninherited: false, kiai: true });
+    });
+    add("bpm-changes-every-object", mixed(150.0), &|m| {
+        for i in 1..8 {
+            m.timing.push(TimingSpec { time: 1000.0 + 150.0 * f64::from(i) - 1.0, beat_len: [60.0, 2000.0, 333.0, 125.0][i as usize % 4], uninherited: true, kiai: i % 2 == 0 });
+        }
+    });
     add("kiai-and-sv", (0..8).map(|i| if i % 2 == 0 { circle(50 + 50 * i, 200, 1000.0 + 250.0 * f64::from(i)) } else { slider(50 + 50 * i, 100, 1000.0 + 250.0 * f64::from(i), 70.0, 1) }).collect(), &|m| {
         m.timing.push(TimingSpec { time: 1500.0, beat_len: -10.0, uninherited: false, kiai: true });
         m.timing.push(TimingSpec { time: 2500.0, beat_len: -1000.0, uninherited: false, kiai: false });
